@@ -144,10 +144,8 @@ func (nd *node) dirNames() []string {
 func (nd *node) remove() {
 	nd.children = nil
 
+	// The data is kept : handles opened before the last name was removed still use it.
 	nd.nlink--
-	if nd.nlink == 0 {
-		nd.data = nil
-	}
 }
 
 // setMode sets the permissions of the file node.
